@@ -16,7 +16,7 @@ import shutil
 
 from lib import btc, chains, datadir, ref, run, tracecheck
 
-THREADS = [1, 2, 3, 8, 16, 64]
+THREADS = [1, 2, 3, 8, 16, 64, 0, 'pin']       # 0: rayon's default spelled out; 'pin': variable unset, process confined to one CPU
 
 
 def big_chain(r0, coin, nblk=3):
@@ -97,20 +97,21 @@ def main(ck, tier, w):
     cbs = ['csvdump', 'unspentcsvdump', 'balances', 'simplestats', 'opreturn']
     jobs = []
     for cb in cbs:
-        for t in (THREADS if not quick else [1, 2, 8, 64]):
+        for t in (THREADS if not quick else [1, 2, 8, 64, 0, 'pin']):
             for rep in range(1 if quick else 3):
-                jobs.append((cb, t, rep, r0.randrange(1 << 30) if rep or t > 1 else None, coin))
+                jobs.append((cb, t, rep, r0.randrange(1 << 30) if rep or t != 1 else None, coin))
     for cb in cbs[:3]:
         for t in (THREADS if not quick else [1, 3, 16]):
             for rep in range(1 if quick else 2):
-                jobs.append((cb, t, rep, r0.randrange(1 << 30) if rep or t > 1 else None, fcoin))
+                jobs.append((cb, t, rep, r0.randrange(1 << 30) if rep or t != 1 else None, fcoin))
 
     def one(j):
         cb, t, rep, jit, cn = j
         dd = w.sub('cl')
         shutil.copytree(bases[cn][0], dd)
         env = {'RBP_VERIF_JITTER': str(jit)} if jit is not None else None
-        r = run.run_parser(dd, cb, dump=w.mk('out') if cb in ('csvdump', 'unspentcsvdump', 'balances') else None, threads=t, env=env, timeout=180, coin=cn)
+        r = run.run_parser(dd, cb, dump=w.mk('out') if cb in ('csvdump', 'unspentcsvdump', 'balances') else None, threads=None if t == 'pin' else t, pin=(t == 'pin'),
+                           env=env, timeout=180, coin=cn)
         shutil.rmtree(dd, ignore_errors=True)
         return j, r
     ran = chains.pmap(one, jobs)
@@ -119,7 +120,7 @@ def main(ck, tier, w):
         cb = j[0]
         ck.evals()
         if r.rc != 0:
-            ck.violation('%s with %d threads fails (exit %d): %s' % (cb, j[1], r.rc, r.stderr[-300:]), {'run': j, 'observed': r.brief(), 'tags': []})
+            ck.violation('%s with %s threads fails (exit %d): %s' % (cb, j[1], r.rc, r.stderr[-300:]), {'run': j, 'observed': r.brief(), 'tags': []})
             continue
         o = observable(cb, r)
         key = (cb, j[4])
@@ -127,17 +128,17 @@ def main(ck, tier, w):
             # every run against the reference rendering (a result that is the same wrong one in every run is no better)
             for f, data in bases[j[4]][2].items():
                 if r.files.get('%s-0-%d.csv' % (f, len(bases[j[4]][1]) - 1)) != data:
-                    ck.violation('%s csvdump %s with %d threads differs from the reference rendering' % (j[4], f, j[1]), {'run': j, 'observed': r.brief(), 'tags': []})
+                    ck.violation('%s csvdump %s with %s threads differs from the reference rendering' % (j[4], f, j[1]), {'run': j, 'observed': r.brief(), 'tags': []})
                     break
         if cb == 'simplestats':
             from checks import c15
             sp = c15.compare(o, c15.expected_from_ref(list(enumerate(bases[j[4]][1])), j[4]))
             if sp:
-                ck.violation('%s simplestats with %d threads: %s' % (j[4], j[1], '; '.join(sp[:3])), {'run': j, 'observed': r.brief(), 'tags': []})
+                ck.violation('%s simplestats with %s threads: %s' % (j[4], j[1], '; '.join(sp[:3])), {'run': j, 'observed': r.brief(), 'tags': []})
         if key not in ref_obs:
             ref_obs[key] = (o, j)
         elif o != ref_obs[key][0]:
-            ck.violation('%s %s output with RAYON_NUM_THREADS=%d jitter=%s differs from the run with %d threads' % (j[4], cb, j[1], j[3], ref_obs[key][1][1]),
+            ck.violation('%s %s output with RAYON_NUM_THREADS=%s jitter=%s differs from the run with %s threads' % (j[4], cb, j[1], j[3], ref_obs[key][1][1]),
                          {'run': j, 'baseline_run': ref_obs[key][1], 'observed': r.brief(), 'tags': []})
 
     # ---- T: evaluation orders really observed, validated against Par.tla ---------------------------
@@ -147,7 +148,7 @@ def main(ck, tier, w):
     one_block = [datadir.mk_block(b'\0' * 32, txs)]
     pd = datadir.simple_dir(w.sub('dd'), one_block, coin).write()
     exp1, _ = ref.csv_expected([(0, one_block[0])], coin)
-    tjobs = [(t, s) for t in ([2, 8, 64] if quick else THREADS) for s in range(3 if quick else 10)]
+    tjobs = [(t, s) for t in ([2, 8, 64] if quick else [x for x in THREADS if isinstance(x, int) and x > 0]) for s in range(3 if quick else 10)]
 
     def tone(j):
         t, s = j
